@@ -358,7 +358,8 @@ class HistogramND(HistogramBase):
             return ixbins
 
     def fill(self, value: ArrayLike, weight: float = 1, **kwargs):
-        self._coerce_dtype(type(weight))
+        # (A numpy integer counts like a python one: in 64 bits)
+        self._coerce_dtype(np.int64 if isinstance(weight, np.integer) else type(weight))
         value_array = np.asarray(value)
         for i, binning in enumerate(self._binnings):
             if binning.is_adaptive():
@@ -433,8 +434,7 @@ class HistogramND(HistogramBase):
         frequencies, errors2, missed = calculate_nd_frequencies(
             values_array, self._binnings, weights=weights
         )
-        self._frequencies += frequencies
-        self._errors2 += errors2 if errors2 is not None else frequencies
+        self._add_contents(frequencies, errors2 if errors2 is not None else frequencies)
         if self.keep_missed:
             self._missed[0] += missed
 
